@@ -165,34 +165,27 @@ func TestVerifC12(t *testing.T) {
 	r.Assume("keys are fixed-seed pseudo-random strings of 8..20 bytes; the property's 'random keys' are not re-drawn per run")
 
 	idxMax := vlib.Pick(r, 4096, 65536)
-	fullMax := vlib.Pick(r, 33, 2000)  // every size 1..fullMax: validity + every key's proof
-	tmutMax := vlib.Pick(r, 16, 33)    // exhaustive tree mutations
-	pmutMax := vlib.Pick(r, 16, 33)    // exhaustive proof mutations
-	rootMax := vlib.Pick(r, 33, 130)   // root-change for every node x every key mutation
+	fullMax := vlib.Pick(r, 33, 2000) // every size 1..fullMax: validity + every key's proof
+	tmutMax := vlib.Pick(r, 16, 33)   // exhaustive tree mutations
+	pmutMax := vlib.Pick(r, 16, 33)   // exhaustive proof mutations
+	rootMax := vlib.Pick(r, 33, 64)   // root-change for every node x every key mutation
 	boundary := []int{63, 64, 65, 127, 128, 129, 130, 255, 256, 257, 511, 512, 513, 1023, 1024, 1025, 1999, 2000}
 	r.Set("index_helper_bound", idxMax)
 	r.Set("sizes_full", fmt.Sprintf("1..%d", fullMax))
 	r.Set("sizes_boundary", boundary)
 	r.Set("tree_mutation_sizes", fmt.Sprintf("1..%d", tmutMax))
 	r.Set("proof_mutation_sizes", fmt.Sprintf("1..%d (every key); boundary sizes: selected keys", pmutMax))
-	r.Set("root_change_sizes", fmt.Sprintf("1..%d (every node, every key mutation); boundary sizes: bit flip of every node's key", rootMax))
+	r.Set("root_change_sizes", fmt.Sprintf("1..%d: every node x every key mutation; up to 130 and the boundary sizes: bit flip of every node's key; other sizes: nodes 0,1,2,n/2,n-2,n-1", rootMax))
 
+	isBoundary := map[int]bool{}
+	for _, n := range boundary {
+		isBoundary[n] = true
+	}
 	var items []c12item
 	for b := 0; b < idxMax; b += 512 {
 		items = append(items, c12item{kind: "idx", n: b})
 	}
-	sizes := map[int]bool{}
-	for n := fullMax; n >= 1; n-- { // large first: better shard balance
-		sizes[n] = true
-		items = append(items, c12item{kind: "tree", n: n})
-	}
-	for _, n := range boundary {
-		if !sizes[n] {
-			sizes[n] = true
-			items = append(items, c12item{kind: "tree", n: n})
-		}
-	}
-	for n := tmutMax; n >= 1; n-- {
+	for n := tmutMax; n >= 1; n-- { // large first: better shard balance
 		items = append(items, c12item{kind: "tmut", n: n})
 	}
 	for n := pmutMax; n >= 1; n-- {
@@ -203,6 +196,18 @@ func TestVerifC12(t *testing.T) {
 	for _, n := range boundary {
 		if n > pmutMax {
 			items = append(items, c12item{kind: "pmutsel", n: n})
+		}
+	}
+	sizes := map[int]bool{}
+	for i := len(boundary) - 1; i >= 0; i-- {
+		if n := boundary[i]; n > fullMax {
+			sizes[n] = true
+			items = append(items, c12item{kind: "tree", n: n})
+		}
+	}
+	for n := fullMax; n >= 1; n-- {
+		if !sizes[n] {
+			items = append(items, c12item{kind: "tree", n: n})
 		}
 	}
 	r.Set("work_items", len(items))
@@ -218,7 +223,7 @@ func TestVerifC12(t *testing.T) {
 		case "idx":
 			c.indexHelpers(it.n, it.n+512)
 		case "tree":
-			c.treeOK(t, it.n, it.n <= rootMax)
+			c.treeOK(t, it.n, it.n <= rootMax, it.n <= 130 || isBoundary[it.n])
 		case "tmut":
 			c.treeMutations(t, it.n)
 		case "pmut":
@@ -284,7 +289,7 @@ func (c *c12run) indexHelpers(from, to int) {
 
 // ---------------------------------------------------------------- valid trees, member proofs, root change
 
-func (c *c12run) treeOK(t *testing.T, n int, fullRootChange bool) {
+func (c *c12run) treeOK(t *testing.T, n int, fullRootChange, everyNodeFlip bool) {
 	r := c.r
 	keys := c12Keys(n)
 	ref := c12RefHashes(keys)
@@ -413,8 +418,8 @@ func (c *c12run) treeOK(t *testing.T, n int, fullRootChange bool) {
 			for b := range kb {
 				flips = append(flips, b)
 			}
-		} else if n > 300 && i%7 != 0 && i > 2 && i < n-3 && (i+1)&i != 0 && (i+2)&(i+1) != 0 {
-			// sizes > 300: every 7th node plus both ends and every level boundary
+		} else if !everyNodeFlip && i > 2 && i < n-2 && i != n/2 {
+			// sizes that are neither <= 130 nor a boundary size: both ends and the middle only
 			continue
 		}
 		for _, b := range flips {
